@@ -58,6 +58,11 @@ type c31Scn struct {
 	script map[uint64][]c31Disp
 	// remoteErrFirst: the first remote owner push of every plan fails as a whole (transport error)
 	remoteErrFirst bool
+	// remoteScript: answer of the remote owner to the n-th push of one plan, over the whole
+	// batch it receives (missing entries = "ok"): "partial" (first route accepted, the rest
+	// retryable), "allretry", "error" (transport error, nothing classified), "ok", "terminal"
+	// (all dropped). When set it replaces the per-session script for remote routes.
+	remoteScript []string
 	// lifecycle thread: "stop" | "quiesce" | "" (none)
 	lifecycle string
 	// recipients of every plan, grouped by authority target (leader node)
@@ -167,6 +172,30 @@ func (w *c31World) PushOwner(ctx context.Context, push onlinedelivery.OwnerPush)
 		return onlinedelivery.OwnerPushResult{}, c.err
 	}
 	var res onlinedelivery.OwnerPushResult
+	if w.scn.remoteScript != nil {
+		ans := "ok"
+		if n < len(w.scn.remoteScript) {
+			ans = w.scn.remoteScript[n]
+		}
+		if ans == "error" {
+			c.err = errors.New("transport down")
+			w.calls = append(w.calls, c)
+			return onlinedelivery.OwnerPushResult{}, c.err
+		}
+		for i, r := range push.Routes {
+			switch c31ScriptDisp(ans, i) {
+			case c31OK:
+				res.Accepted = append(res.Accepted, r)
+			case c31Retry:
+				res.Retryable = append(res.Retryable, r)
+			default:
+				res.Dropped = append(res.Dropped, r)
+			}
+		}
+		c.result = res.Clone()
+		w.calls = append(w.calls, c)
+		return res, nil
+	}
 	for _, r := range push.Routes {
 		switch w.disp(push.Event.MessageID, r.SessionID) {
 		case c31OK:
@@ -297,6 +326,50 @@ func c31Describe(c c31Call) string {
 	default:
 		return fmt.Sprintf("presence %v", c.uids)
 	}
+}
+
+// c31ScriptDisp: what a batch-level remote answer means for the i-th route of the batch.
+func c31ScriptDisp(ans string, i int) c31Disp {
+	switch ans {
+	case "partial":
+		if i == 0 {
+			return c31OK
+		}
+		return c31Retry
+	case "allretry":
+		return c31Retry
+	case "terminal":
+		return c31Drop
+	default:
+		return c31OK
+	}
+}
+
+// c31SimRemote is the reference for a scripted remote owner: how often each session of the
+// owner's batch (in presence order) gets a classified answer when every retry carries
+// exactly the routes the previous classified answer marked retryable, a transport error
+// leaves the route set unchanged, and at most c31MaxAttempts pushes are made.
+func c31SimRemote(script []string, sessions []uint64) map[uint64]int {
+	tries := map[uint64]int{}
+	cur := append([]uint64(nil), sessions...)
+	for attempt := 0; attempt < c31MaxAttempts && len(cur) > 0; attempt++ {
+		ans := "ok"
+		if attempt < len(script) {
+			ans = script[attempt]
+		}
+		if ans == "error" {
+			continue
+		}
+		var next []uint64
+		for i, se := range cur {
+			tries[se]++
+			if c31ScriptDisp(ans, i) == c31Retry {
+				next = append(next, se)
+			}
+		}
+		cur = next
+	}
+	return tries
 }
 
 // expectedAttempts: how many times one exact route is tried for one plan under its script.
@@ -448,6 +521,15 @@ func c31Check(scn *c31Scn) func(x *vsched.Exec) error {
 			}
 		}
 		// ---- coverage of every accepted plan
+		var remoteSessions []uint64
+		for _, uid := range recipients {
+			for _, r := range scn.routes[uid] {
+				if r.OwnerNodeID == c31NodeB {
+					remoteSessions = append(remoteSessions, r.SessionID)
+				}
+			}
+		}
+		remoteWant := c31SimRemote(scn.remoteScript, remoteSessions)
 		for _, p := range c31Plans {
 			if w.enqErr[p.msg] != nil {
 				continue
@@ -466,6 +548,9 @@ func c31Check(scn *c31Scn) func(x *vsched.Exec) error {
 				}
 				for _, r := range rs {
 					want := c31ExpectedAttempts(scn.script[r.SessionID])
+					if r.OwnerNodeID == c31NodeB && scn.remoteScript != nil {
+						want = remoteWant[r.SessionID]
+					}
 					if r.OwnerNodeID == c31NodeB && scn.remoteErrFirst {
 						// one attempt is consumed by the transport error before any route is classified
 						if want+1 > c31MaxAttempts {
@@ -506,7 +591,7 @@ func c31Scenarios() []*c31Scn {
 	b21, b22 := c31Route("u1", c31NodeB, 21), c31Route("u2", c31NodeB, 22)
 	stale := c31Route("u3", c31NodeA, 99) // presence still lists a session the owner no longer has
 	scns := []*c31Scn{
-		{name: "local-two-sessions-stop", deep: true, lifecycle: "stop", targets: [][]string{{"u1", "u2", "u4"}, {"u4"}},
+		{name: "local-two-sessions-stop", lifecycle: "stop", targets: [][]string{{"u1", "u2", "u4"}, {"u4"}},
 			routes: map[string][]onlinedelivery.Route{"u1": {a11}, "u2": {a12}}, batch: 8, ownerConc: 1,
 			note: "u1,u2 online on the local owner, u4 offline and listed under two authority targets (one de-duplicated offline report); Stop at any point"},
 		{name: "local-retry-narrowing", lifecycle: "", targets: [][]string{{"u1", "u2", "u3"}},
@@ -535,6 +620,41 @@ func c31Scenarios() []*c31Scn {
 	return scns
 }
 
+// c31ScriptScenarios: every behaviourally distinct answer sequence of length <= 3 over
+// {partial, allretry, error, ok, terminal} for one remote owner batch (a sequence ends at
+// the first answer that leaves nothing to retry; entries beyond the script are "ok").
+func c31ScriptScenarios(thorough bool) []*c31Scn {
+	b21, b22, b23 := c31Route("u1", c31NodeB, 21), c31Route("u2", c31NodeB, 22), c31Route("u3", c31NodeB, 23)
+	a11 := c31Route("u1", c31NodeA, 11)
+	answers := []string{"partial", "allretry", "error", "ok", "terminal"}
+	ends := func(a string) bool { return a == "ok" || a == "terminal" }
+	var scripts [][]string
+	var gen func(prefix []string)
+	gen = func(prefix []string) {
+		for _, a := range answers {
+			sc := append(append([]string(nil), prefix...), a)
+			if ends(a) || len(sc) == c31MaxAttempts {
+				scripts = append(scripts, sc)
+				continue
+			}
+			gen(sc)
+		}
+	}
+	gen(nil)
+	var out []*c31Scn
+	for _, sc := range scripts {
+		out = append(out, &c31Scn{name: "remote-script-2routes/" + strings.Join(sc, ","), lifecycle: "", targets: [][]string{{"u1", "u2"}},
+			routes: map[string][]onlinedelivery.Route{"u1": {b21}, "u2": {b22}}, remoteScript: sc, batch: 8, ownerConc: 1,
+			note: "one remote owner batch of 2 sessions answering " + strings.Join(sc, ",")})
+		if thorough {
+			out = append(out, &c31Scn{name: "remote-script-3routes+local/" + strings.Join(sc, ","), lifecycle: "stop", targets: [][]string{{"u1", "u2", "u3"}},
+				routes: map[string][]onlinedelivery.Route{"u1": {a11, b21}, "u2": {b22}, "u3": {b23}}, remoteScript: sc, batch: 8, ownerConc: 2,
+				note: "remote owner batch of 3 sessions answering " + strings.Join(sc, ",") + ", u1 also online locally, owners concurrent, Stop at any point"})
+		}
+	}
+	return out
+}
+
 func TestVerifC31(t *testing.T) {
 	r := ev.Start(t, "C31")
 	defer r.Finish()
@@ -549,11 +669,17 @@ func TestVerifC31(t *testing.T) {
 	var execs int64
 	outcomes := 0
 	overlap := false
-	for _, scn := range c31Scenarios() {
+	scripted := c31ScriptScenarios(r.Thorough())
+	for _, scn := range append(c31Scenarios(), scripted...) {
 		scn := scn
 		bound := bound
 		if scn.deep && r.Thorough() {
 			bound++
+		}
+		if scn.remoteScript != nil {
+			// answer-sequence product: retry handling is sequential inside one plan, so
+			// the menu is what is enumerated here; schedules within a smaller delay bound
+			bound = ev.Pick(r, 1, 2)
 		}
 		check := c31Check(scn)
 		st := vsched.Explore(r, vsched.Scenario{
@@ -578,6 +704,7 @@ func TestVerifC31(t *testing.T) {
 		return
 	}
 	r.Guard("schedules", execs >= 1000, "executions=%d", execs)
+	r.Guard("remote-answer-scripts", len(scripted) >= 50, "distinct remote answer sequences (length <= %d over partial/allretry/error/ok/terminal)=%d", c31MaxAttempts, len(scripted))
 	r.Guard("distinct-outcomes", outcomes >= 20, "distinct port-call sequences=%d", outcomes)
 	r.Guard("channels-processed-concurrently", overlap, "an execution where channel c2's plan was pushed between two pushes of channel c1 plans was seen=%v", overlap)
 	r.Assume("atomic operations of the delivery runtime are not scheduling points (QuietAtomics): they are single read-modify-write steps on metrics (inflight, queue depth), the ack tracker's counters (property C32) and the owner work-index dispenser; no decision of plan processing reads one of them twice")
